@@ -15,6 +15,7 @@ mod c09;
 mod c10;
 mod c16;
 mod c19;
+mod c21;
 mod fdgen;
 mod search;
 mod prog;
@@ -58,6 +59,7 @@ fn main() {
                 "C10" => c10::run(seed, thorough, &mut out),
                 "C16" => c16::run(seed, thorough, 16, &mut out),
                 "C19" => c19::run(seed, thorough, &mut out),
+                "C21" => c21::run(seed, thorough, &mut out),
                 "C17" => c16::run(seed, thorough, 17, &mut out),
                 _ => {
                     eprintln!("unknown property {}", prop);
@@ -91,6 +93,7 @@ fn main() {
                     "C10" => c10::replay(line, &mut out),
                     "C16" => c16::replay(line, 16, &mut out),
                     "C19" => c19::replay(line, &mut out),
+                    "C21" => c21::replay(line, &mut out),
                     "C17" => c16::replay(line, 17, &mut out),
                     _ => {
                         eprintln!("unknown property {}", prop);
